@@ -144,8 +144,8 @@ func unguardedDerefs(info *types.Info, body *ast.BlockStmt, obj types.Object, is
 			walkNode(s, g)
 			// `if obj == nil { leaves }` protects what follows
 			if is, ok := s.(*ast.IfStmt); ok && is.Else == nil {
-				if _, eg := condGuards(is.Cond); !eg {
-					if be, ok := ast.Unparen(is.Cond).(*ast.BinaryExpr); ok && be.Op == token.EQL && isIdentObj(info, be.X, obj) && isNilIdent(info, be.Y) && terminates(info, is.Body) {
+				if be, ok := ast.Unparen(is.Cond).(*ast.BinaryExpr); ok && be.Op == token.EQL && isIdentObj(info, be.X, obj) && isNilIdent(info, be.Y) {
+					if terminates(info, is.Body) || rebindsFresh(info, is.Body, obj) {
 						g = true
 					}
 				}
@@ -241,7 +241,12 @@ func RunNil(c *core.Ctx) {
 						if as, ok := t.Init.(*ast.AssignStmt); ok && len(as.Lhs) == 2 && len(as.Rhs) == 1 {
 							if ta, ok := as.Rhs[0].(*ast.TypeAssertExpr); ok && ta.Type != nil {
 								if id, ok := as.Lhs[0].(*ast.Ident); ok && id.Name != "_" {
-									check(info.ObjectOf(id), t.Body)
+									// `ok && v != nil` in the condition protects the body
+									if condHasNonNil(info, t.Cond, info.ObjectOf(id)) {
+										n++
+									} else {
+										check(info.ObjectOf(id), t.Body)
+									}
 								}
 							}
 						}
@@ -414,6 +419,42 @@ func unguardedBackDerefs(info *types.Info, body *ast.BlockStmt, ro types.Object,
 		}
 	}
 	return out
+}
+
+// rebindsFresh: the block is `obj = new(T)` / `obj = &T{}`: afterwards obj is non-nil.
+func rebindsFresh(info *types.Info, b *ast.BlockStmt, obj types.Object) bool {
+	if b == nil || len(b.List) != 1 {
+		return false
+	}
+	as, ok := b.List[0].(*ast.AssignStmt)
+	if !ok || as.Tok != token.ASSIGN || len(as.Lhs) != 1 || !isIdentObj(info, as.Lhs[0], obj) {
+		return false
+	}
+	switch r := ast.Unparen(as.Rhs[0]).(type) {
+	case *ast.CallExpr:
+		if id, ok := r.Fun.(*ast.Ident); ok && id.Name == "new" {
+			return true
+		}
+	case *ast.UnaryExpr:
+		if _, ok := ast.Unparen(r.X).(*ast.CompositeLit); ok && r.Op == token.AND {
+			return true
+		}
+	}
+	return false
+}
+
+// condHasNonNil: the condition is a conjunction containing `obj != nil`.
+func condHasNonNil(info *types.Info, c ast.Expr, obj types.Object) bool {
+	c = ast.Unparen(c)
+	if be, ok := c.(*ast.BinaryExpr); ok {
+		if be.Op == token.LAND {
+			return condHasNonNil(info, be.X, obj) || condHasNonNil(info, be.Y, obj)
+		}
+		if be.Op == token.NEQ && isIdentObj(info, be.X, obj) && isNilIdent(info, be.Y) {
+			return true
+		}
+	}
+	return false
 }
 
 // alwaysPanics: no return statement, last statement is a panic call.
